@@ -203,6 +203,24 @@ def execute(mat, ctx):
             amat = _embedded.materialise_assembly({"kind": "assembly", "i": j, "seed": mat["seed"], "enzyme": ename, "opts": {"features": False}})
             V, M = gen.generic_classes(ename)
             texts = [amat["vector"]["seq"]] + [m["seq"] for m in amat["modules"]]
+            # every documented error path gets its turn: an extra module sharing a start overhang with a supplied one, or
+            # starting with the reverse complement of one (DuplicateModules, both causes), or chaining nowhere (UnusedModules)
+            twist = rng.choice(["none", "none", "same-start", "rc-start", "unrelated"])
+            if twist != "none":
+                geom = refmodel.geometry(gen.enzyme(ename))
+                ovs = amat["overhangs"]
+                try:
+                    if twist == "same-start":
+                        o5 = rng.choice(ovs[:-1])
+                    elif twist == "rc-start":
+                        o5 = rc(rng.choice(ovs[:-1]))
+                    else:
+                        o5 = gen.gen_overhangs(rng, geom[2], 1, forbid=(geom[0], rc(geom[0])))[0]
+                    o3 = gen.gen_overhangs(rng, geom[2], 1, forbid=(geom[0], rc(geom[0])))[0]
+                    texts.append(gen.build_module(rng, geom, o5, o3, rng.randint(2, 12), rng.randint(0, 10))["seq"])
+                    ctx.hist("assembly_twist", twist)
+                except RuntimeError:
+                    pass
             modes = []
             for t in range(len(texts)):
                 if rng.random() < 0.3:
